@@ -1,7 +1,7 @@
 """C15 — no message sequence can take the server down (kernel: position conversion + change application + the
 didChange loop).  Part a: four arbitrary u32 per change.  Part b: Server::on_did_change with the real Vfs methods."""
 import os, json
-from mirsym import explore
+from mirsym import explore, lsp_replay
 from . import vfsrun, vfsk, vfsspecs
 from .runner import Check
 
@@ -38,6 +38,7 @@ def main(tier, seed):
         vfsk.W.cleanup()
         from . import urlk
         urlk.part(chk, tier, jobs)
+        nonfile_part(chk, tier, jobs)
         vfsk.load('release', log=chk.log)
         part_a(chk, oracle, jobs, B['a_release'], 'release')
     finally:
@@ -50,8 +51,50 @@ def main(tier, seed):
     return chk.finish()
 
 
+def native_untitled(binary):
+    s = lsp_replay.Session(binary)
+    try:
+        u = 'untitled:Untitled-1'
+        s.notify('textDocument/didOpen', {'textDocument': {'uri': u, 'languageId': 'gleam', 'version': 1, 'text': 'pub fn main() { 1 }\n'}})
+        h = s.request('textDocument/hover', {'textDocument': {'uri': u}, 'position': {'line': 0, 'character': 8}})
+        s.notify('textDocument/didChange', {'textDocument': {'uri': u, 'version': 2}, 'contentChanges': [{'text': 'pub fn main() { 2 }\n'}]})
+        h2 = s.request('textDocument/hover', {'textDocument': {'uri': s.uri()}, 'position': {'line': 0, 'character': 0}})
+        answered = lambda r: isinstance(r, dict) and ('result' in r or 'error' in r)
+        return {'alive': s.alive(), 'hover_on_untitled': 'answered' if answered(h) else str(h), 'request_after_change': 'answered' if answered(h2) else str(h2)}
+    finally:
+        s.close()
+
+
+def nonfile_part(chk, tier, jobs):
+    from mirsym.world import World
+    from . import ucserver
+    ucserver.WGI = World(['glas', 'ide'], 'dev', log=chk.log)
+    try:
+        res, complete = explore.explore(ucserver.nonfile_factory, (), jobs=1)
+        chk.add_run('on_did_open of a document with a non-file URI (under-constrained server, VfsPath::as_path real)', res, complete, {'uri': 'untitled:Untitled-1'}, nontrivial_classes=lambda c: c == 'opened')
+        obs = native_untitled(lsp_replay.build_binary())
+        healthy = obs['alive'] and obs['hover_on_untitled'] == 'answered' and obs['request_after_change'] == 'answered'
+        if res.violations:
+            why = res.violations[0]['why'][0]
+            if not healthy:
+                chk.violation('didopen:non-file-uri', 'bounded', '%s; real server: didOpen untitled:Untitled-1, hover, didChange, hover -> %s' % (why[:400], obs), {'uri': 'untitled:Untitled-1'}, confirmed=True)
+            else:
+                chk.inconclusive.append('non-file didOpen kernel: %s -- but the real server survives and answers (%s)' % (why[:300], obs))
+        elif not healthy:
+            chk.inconclusive.append('translator validation FAILED: the non-file didOpen kernel finds no panic, the real server: %s' % obs)
+        else:
+            chk.validated += 1
+            chk.log('non-file URIs: the real server survives didOpen / hover / didChange on untitled:Untitled-1 and keeps answering')
+    finally:
+        ucserver.WGI.cleanup()
+
+
 def replay(path):
     d = json.load(open(path))
+    if d.get('site') == 'didopen:non-file-uri':
+        from mirsym import lsp_replay as _l
+        print(json.dumps(native_untitled(_l.build_binary()), indent=1))
+        return 0
     if d.get('site') == 'uri-alias':
         from mirsym import lsp_replay
         from . import urlk
